@@ -130,7 +130,7 @@ CHECKS = {
     level='other',
     text=('Post-tokenisation step only: mesh_reader::get_cell_mesh runs from the LLVM IR on connectivity lists whose every entry is symbolic (0..2^31-1, what std::stoi delivers for [0-9]+ tokens), for all list lengths 0..6 (8 thorough), one and two (three) cells, '
           'point arrays of 0-4 points. irsym checks every access; accesses through symbolic offsets and into allocations of symbolic size are decided by z3 under the path condition. Per path: return with in-range local ids and copied existing points, or an exception '
-          'derived from std::exception; no access outside a live object; all paths terminate. Memory reports are replayed natively under valgrind at the solver model. Byte-level parsing (regex, getline, stoi/strtod, tinyxml2), get_cell_types and the initializer cross-checks are not encoded.'),
+          'derived from std::exception; no access outside a live object; all paths terminate. Memory reports are replayed natively under valgrind at the solver model. Second part: the parameter reader on files in which one element is empty (<tag></tag>, every tag in turn, tinyxml2 navigation as environment table as in C18): every path ends in acceptance or an exception derived from std::exception, never in std::terminate. Byte-level parsing (regex, getline, stoi/strtod, tinyxml2 internals), get_cell_types and the initializer cross-checks are not encoded.'),
     note='Trusted: clang lowering (validated per run), irsym memory model incl. symbolic addresses/allocation sizes, libstdc++ containers executed from the IR (red-black tree helpers re-implemented in shims.cpp), z3; valgrind as replay oracle only.',
     technique='symbolic execution of LLVM IR with solver-decided bounds of symbolic offsets and allocation sizes (z3, integer arithmetic); native replay under valgrind',
     design='3/C17'),
